@@ -38,6 +38,10 @@ def _make_vtask():
 _PyTask = _make_vtask()
 
 
+class Crash(Exception):
+    """The process under test dies here (raised by the loop driver, never by a callback)."""
+
+
 class VHandle:
     __slots__ = ("cb", "args", "_cancelled", "when", "seq")
 
@@ -78,6 +82,7 @@ class VLoop(asyncio.AbstractEventLoop):
         self.ncallbacks = 0
         self.spinning = False
         self._task_factory = None
+        self.crash_check = None     # callable(ncallbacks) -> bool : die before the next callback?
 
     # ---- asyncio API used by tornado / asyncio / streamz -------------------
     def time(self):
@@ -196,6 +201,9 @@ class VLoop(asyncio.AbstractEventLoop):
                 h = self.ready.popleft()
                 if h._cancelled:
                     continue
+                if self.crash_check is not None and self.crash_check(self.ncallbacks):
+                    self.ready.appendleft(h)
+                    raise Crash()
                 self.ncallbacks += 1
                 if self.ncallbacks > cap:
                     raise RuntimeError("virtual loop callback cap exceeded")
